@@ -11,8 +11,10 @@ Three executable models, core Lean only.
 
 2. The lockset discipline over a table of sites (`pairOK`, `locksetOK`) and the reviewed
    table `implSites` of the code AS IT IS (frozen from the extractor's output at the pinned
-   commit, compared with the regenerated one in `Ties.lean`).  `GoType.GetConverter` takes no
-   lock, so the sites below it have an empty lockset: that is the known defect.
+   tree, compared with the regenerated one in `Ties.lean`).  At the pinned commit
+   `GoType.GetConverter` took no lock, so the sites below it had an empty lockset
+   (`preFixRows`); that defect was repaired in /repo and the table follows the repaired code.
+   What remains is `Clone` against a re-run of the same VM.
 
 3. A small VM model for `isolated_results`: each evaluation owns its globals and its wrapped
    copy of the compiled code; the compiled code, the converter cache and the importer cache
@@ -129,11 +131,14 @@ private def gm : List (String × Bool × Bool) := [("object.goTypeMutex", true, 
 private def cm : List (String × Bool × Bool) := [("vm.VirtualMachine.cloneMutex", true, true)]
 private def rm : List (String × Bool × Bool) := [("vm.VirtualMachine.runMutex", true, true)]
 
-/-- The reviewed inventory (pinned commit).  Read with the source next to it:
-    `createTypeConverter`, `getTypeConverter`, `newGoType` say "the caller must hold
-    goTypeMutex", and `NewTypeConverter`/`NewGoType`/`SetTypeConverter` do take it, but
+/-- The reviewed inventory.  Read with the source next to it: `createTypeConverter`,
+    `getTypeConverter`, `newGoType` say "the caller must hold goTypeMutex", and
+    `NewTypeConverter`/`NewGoType`/`SetTypeConverter` take it.  At the pinned commit
     `GoType.GetConverter` (called by `Proxy.call` for every argument and result of a Go method)
-    calls `getTypeConverter` without it – so the must-hold lockset of everything below is empty. -/
+    called `getTypeConverter` WITHOUT it, so the must-hold lockset of those rows was empty
+    (`preFixRows`, finding C09-getconverter-unlocked); since the repair in /repo ("fix: take
+    goTypeMutex in GoType.GetConverter") `GetConverter` locks and delegates to `getConverter`,
+    and every path to these rows holds `goTypeMutex`. -/
 def implRows : List Row := [
   ("builtins.codecs", false, "builtins.<pkg-init>", true, [], true),
   ("builtins.codecs", false, "builtins.GetCodec", false, [("builtins.mutex", false, false)], false),
@@ -151,8 +156,8 @@ def implRows : List Row := [
   ("importer.defaultExtensions", false, "<readers>", false, [], false),
   ("object.False", false, "<readers>", false, [], false),
   ("object.False", false, "object.<pkg-init>", true, [], true),
-  ("object.GoType.converter", true, "object.GoType.GetConverter", false, [], false),
-  ("object.GoType.converter", true, "object.GoType.GetConverter", true, [], false),
+  ("object.GoType.converter", true, "object.GoType.getConverter", false, gm, false),
+  ("object.GoType.converter", true, "object.GoType.getConverter", true, gm, false),
   ("object.Nil", false, "<readers>", false, [], false),
   ("object.Nil", false, "object.<pkg-init>", true, [], true),
   ("object.True", false, "<readers>", false, [], false),
@@ -165,8 +170,8 @@ def implRows : List Row := [
   ("object.errorInterface", false, "object.<pkg-init>", true, [], true),
   ("object.errorInterface", false, "<readers>", false, [], false),
   ("object.goTypeRegistry", false, "object.<pkg-init>", true, [], true),
-  ("object.goTypeRegistry", false, "object.newGoType", false, [], false),
-  ("object.goTypeRegistry", false, "object.newGoType", true, [], false),
+  ("object.goTypeRegistry", false, "object.newGoType", false, gm, false),
+  ("object.goTypeRegistry", false, "object.newGoType", true, gm, false),
   ("object.intCache", false, "object.<pkg-init>", true, [], true),
   ("object.intCache", false, "<readers>", false, [], false),
   ("object.intCache", false, "object.init", true, [], true),
@@ -174,9 +179,9 @@ def implRows : List Row := [
   ("object.kindConverters", false, "<readers>", false, [], false),
   ("object.typeConverters", false, "object.<pkg-init>", true, [], true),
   ("object.typeConverters", false, "object.SetTypeConverter", true, gm, false),
-  ("object.typeConverters", false, "object.createTypeConverter", false, [], false),
-  ("object.typeConverters", false, "object.createTypeConverter", true, [], false),
-  ("object.typeConverters", false, "object.getTypeConverter", false, [], false),
+  ("object.typeConverters", false, "object.createTypeConverter", false, gm, false),
+  ("object.typeConverters", false, "object.createTypeConverter", true, gm, false),
+  ("object.typeConverters", false, "object.getTypeConverter", false, gm, false),
   ("op.infos", false, "op.<pkg-init>", true, [], true),
   ("op.infos", false, "<readers>", false, [], false),
   ("op.infos", false, "op.init", true, [], true),
@@ -207,8 +212,23 @@ def implRows : List Row := [
 
 def implSites : List Site := implRows.map ofRow
 
-/-- guard of finding C09-getconverter-unlocked: the three locations reached through
-    `GoType.GetConverter` without `goTypeMutex` -/
+/-- the rows of the converter registries as they were BEFORE the repair of `GetConverter`
+    (empty must-hold locksets): kept so that the defect stays a checked statement -/
+def preFixRows : List Row := [
+  ("object.GoType.converter", true, "object.GoType.GetConverter", false, [], false),
+  ("object.GoType.converter", true, "object.GoType.GetConverter", true, [], false),
+  ("object.goTypeRegistry", false, "object.<pkg-init>", true, [], true),
+  ("object.goTypeRegistry", false, "object.newGoType", false, [], false),
+  ("object.goTypeRegistry", false, "object.newGoType", true, [], false),
+  ("object.typeConverters", false, "object.<pkg-init>", true, [], true),
+  ("object.typeConverters", false, "object.SetTypeConverter", true, gm, false),
+  ("object.typeConverters", false, "object.createTypeConverter", false, [], false),
+  ("object.typeConverters", false, "object.createTypeConverter", true, [], false),
+  ("object.typeConverters", false, "object.getTypeConverter", false, [], false)
+]
+
+/-- the three locations reached through `GoType.GetConverter` (finding C09-getconverter-unlocked,
+    repaired: they are now covered by the discipline like every other location) -/
 def getConverterLocs : List String :=
   ["object.typeConverters", "object.goTypeRegistry", "object.GoType.converter"]
 
@@ -216,18 +236,17 @@ def getConverterLocs : List String :=
     but replaced/modified by a re-run of the same VM without it -/
 def cloneRerunLocs : List String := vmLocs
 
-def knownRacyLoc (loc : String) : Bool := getConverterLocs.contains loc || cloneRerunLocs.contains loc
+def knownRacyLoc (loc : String) : Bool := cloneRerunLocs.contains loc
 
 /-- which known finding (if any) a racy pair of sites falls under -/
 def findingOf (a b : Site) : String :=
   if a.loc != b.loc then ""
-  else if getConverterLocs.contains a.loc then "C09-getconverter-unlocked"
   else if cloneRerunLocs.contains a.loc
       && (a.fn == "vm.VirtualMachine.Clone" || b.fn == "vm.VirtualMachine.Clone") then "C09-clone-during-rerun"
   else ""
 
-/-- the table after the obvious repair: `GetConverter` takes `goTypeMutex`, and the re-run
-    paths take `cloneMutex` around their writes -/
+/-- the table after the obvious repairs: (historical, for `preFixRows`) `GetConverter` takes
+    `goTypeMutex`; the re-run paths take `cloneMutex` around their writes -/
 def repair (s : Site) : Site :=
   if getConverterLocs.contains s.loc && s.locks.isEmpty && concurrent s then
     { s with locks := [{ name := "object.goTypeMutex", excl := true, perObj := false }] }
@@ -358,8 +377,6 @@ def reviewedVars : List (String × String) := [
     who in the repository calls them (top-level directories, non-test files) -/
 def reviewedUnlockedWriters : List (String × String × List String) := [
   ("errz.typeErrorsAreFatal", "errz.SetTypeErrorsAreFatal", []),
-  ("object.goTypeRegistry", "object.newGoType", ["object"]),
-  ("object.typeConverters", "object.createTypeConverter", ["object"]),
   ("os.globalScriptargs", "os.SetScriptArgs", ["cmd"])]
 
 end Risor.C09
